@@ -309,6 +309,13 @@ func sameKV(a, b map[types.StateKey]string) bool {
 	return true
 }
 
+// a fork off the main chain as the node under test imported it: after main-chain block at-1, these blocks, these roots
+type branch struct {
+	at     int
+	blocks []types.Block
+	roots  []types.StateRoot
+}
+
 type planned struct {
 	blk  types.Block
 	tip  *tip
@@ -335,9 +342,18 @@ func scenario(h *vh.H, ci int, r vh.R) {
 	svc := &fuzz.FuzzServiceStub{}
 	w, g := genesis(r)
 	fail := func(class string, d map[string]any) { h.Viol("chain", ci, "", class, d) }
+	// every third chain runs with the fuzz protocol's ancestry feature on: SetState is given an ancestry list, the node then
+	// keeps it up to date at every commit / restore and refuses fork blocks older than the newest ancestor
+	var anc types.Ancestry
+	withAncestry := ci%3 == 1
+	if withAncestry {
+		anc = types.Ancestry{{Slot: 0, HeaderHash: g.hash}}
+		h.Inc("chains_with_ancestry_tracking")
+	}
+	ancestry := func() types.Ancestry { return append(types.Ancestry(nil), anc...) }
 
 	// ---- control node: the main chain, valid blocks only ------------------------------------------------------------------------
-	root0, err := svc.SetState(w.genHdr, w.genKV.DeepCopy(), nil)
+	root0, err := svc.SetState(w.genHdr, w.genKV.DeepCopy(), ancestry())
 	if err != nil {
 		fail("genesis rejected", map[string]any{"err": err.Error()})
 		return
@@ -382,7 +398,7 @@ func scenario(h *vh.H, ci int, r vh.R) {
 	h.Count("valid_blocks_on_control_nodes", int64(len(chain)))
 
 	// ---- second fresh node, same sequence: identical roots ------------------------------------------------------------------------
-	if _, err := svc.SetState(w.genHdr, w.genKV.DeepCopy(), nil); err != nil {
+	if _, err := svc.SetState(w.genHdr, w.genKV.DeepCopy(), ancestry()); err != nil {
 		fail("genesis rejected the second time", nil)
 		return
 	}
@@ -395,7 +411,7 @@ func scenario(h *vh.H, ci int, r vh.R) {
 	}
 
 	// ---- node under test: the same chain with hostile blocks in between ------------------------------------------------------------
-	if _, err := svc.SetState(w.genHdr, w.genKV.DeepCopy(), nil); err != nil {
+	if _, err := svc.SetState(w.genHdr, w.genKV.DeepCopy(), ancestry()); err != nil {
 		fail("genesis rejected the third time", nil)
 		return
 	}
@@ -418,6 +434,8 @@ func scenario(h *vh.H, ci int, r vh.R) {
 		return chain[b-1].tip
 	}
 	var trace []string
+	var branches []branch
+	headSlot := 0 // slot of the block the node under test imported last
 	seenBlocks := map[types.HeaderHash]bool{}
 	for b, p := range chain {
 		parent := parentOf(b)
@@ -428,6 +446,7 @@ func scenario(h *vh.H, ci int, r vh.R) {
 			bad := p.blk
 			bad.Extrinsic.Tickets = append(types.TicketsExtrinsic(nil), p.blk.Extrinsic.Tickets...)
 			expectReject := true
+			var sibTip *tip
 			resign := func(hd *types.Header, author int, slot int) {
 				// keep everything else valid: recompute the seal for the modified header
 				nt := p.tip
@@ -504,7 +523,15 @@ func scenario(h *vh.H, ci int, r vh.R) {
 				h.Inc("late_failing_blocks")
 			case "valid sibling":
 				// another valid child of the same parent (other slot or other tickets): accepted, then the main chain goes on from the parent
-				sib, st := w.produce(r, parent, parent.tau+1+r.IntN(3), r.IntN(K+1))
+				sibSlot := parent.tau + 1 + r.IntN(3)
+				if withAncestry && sibSlot > p.tip.tau {
+					sibSlot = p.tip.tau // with ancestry tracking the node refuses blocks older than its newest ancestor: keep the main chain importable
+				}
+				if withAncestry && sibSlot < headSlot {
+					continue // (a second fork off the same parent, older than the first: legitimately refused with ancestry tracking)
+				}
+				sib, st := w.produce(r, parent, sibSlot, r.IntN(K+1))
+				sibTip = st
 				if st.hash == p.tip.hash || seenBlocks[st.hash] {
 					continue // the very same block (same slot, same tickets): importing a block twice is not what is judged here
 				}
@@ -521,6 +548,9 @@ func scenario(h *vh.H, ci int, r vh.R) {
 			if pn, msg, st := vh.Guard(func() { root, ierr = svc.ImportBlock(bad) }); pn {
 				fail("import panicked on a hostile block", map[string]any{"block": b, "kind": kind, "panic": msg, "stack": st, "trace": fmt.Sprint(trace)})
 				return
+			}
+			if ierr == nil {
+				headSlot = int(bad.Header.Slot)
 			}
 			trace = append(trace, fmt.Sprintf("%d:%s=%v", b, kind, ierr == nil))
 			if len(trace) > 10 {
@@ -564,7 +594,7 @@ func scenario(h *vh.H, ci int, r vh.R) {
 						if cerr == nil {
 							// witness for the replay file: what a node that never saw the rejected block answers
 							fresh := "accepted"
-							if _, e := svc.SetState(w.genHdr, w.genKV.DeepCopy(), nil); e == nil {
+							if _, e := svc.SetState(w.genHdr, w.genKV.DeepCopy(), ancestry()); e == nil {
 								for _, q := range chain[:b] {
 									svc.ImportBlock(q.blk)
 								}
@@ -605,6 +635,28 @@ func scenario(h *vh.H, ci int, r vh.R) {
 					return
 				}
 				h.Inc("forks")
+				// the fork grows by one more block before the main chain goes on (the node is then two blocks into a branch it has
+				// to abandon); the branch is replayed on a fresh node afterwards
+				sibTip.root = root
+				br := branch{at: b, blocks: []types.Block{bad}, roots: []types.StateRoot{root}}
+				if cslot := sibTip.tau + 1 + r.IntN(2); r.Bool() && (!withAncestry || cslot <= p.tip.tau) {
+					child, _ := w.produce(r, sibTip, cslot, r.IntN(K+1))
+					var croot types.StateRoot
+					var cerr error
+					if pn, msg, st := vh.Guard(func() { croot, cerr = svc.ImportBlock(child) }); pn {
+						fail("import panicked on the child of a valid sibling", map[string]any{"block": b, "panic": msg, "stack": st})
+						return
+					}
+					if cerr != nil {
+						fail("a valid child of a valid sibling is rejected", map[string]any{"block": b, "err": cerr.Error(), "trace": fmt.Sprint(trace)})
+						return
+					}
+					headSlot = cslot
+					h.Inc("fork_branches_of_two_blocks")
+					trace = append(trace, fmt.Sprintf("%d:child-of-sibling", b))
+					br.blocks, br.roots = append(br.blocks, child), append(br.roots, croot)
+				}
+				branches = append(branches, br)
 			}
 		}
 		// the valid block: must import with the control root
@@ -622,6 +674,7 @@ func scenario(h *vh.H, ci int, r vh.R) {
 			fail("a valid block imports with another state root than on the control node", map[string]any{"block": b, "slot": p.tip.tau, "trace": fmt.Sprint(trace)})
 			return
 		}
+		headSlot = p.tip.tau
 		imported = append(imported, p.tip.hash)
 		if s1, err := getState(p.tip.hash); err == nil {
 			snap[p.tip.hash] = s1
@@ -634,6 +687,31 @@ func scenario(h *vh.H, ci int, r vh.R) {
 			return
 		}
 		h.Inc("valid_blocks_on_the_node_under_test")
+	}
+	// ---- fork branches replayed on fresh nodes that saw neither the rejected blocks nor the other forks -------------------------------
+	if len(branches) > 2 {
+		branches = []branch{branches[0], branches[len(branches)-1]}
+	}
+	for _, br := range branches {
+		if _, err := svc.SetState(w.genHdr, w.genKV.DeepCopy(), ancestry()); err != nil {
+			fail("genesis rejected at a branch replay", nil)
+			return
+		}
+		for _, q := range chain[:br.at] {
+			if _, e := svc.ImportBlock(q.blk); e != nil {
+				fail("a fresh node rejects the main chain at a branch replay", map[string]any{"err": e.Error()})
+				return
+			}
+		}
+		for k, blk := range br.blocks {
+			root, e := svc.ImportBlock(blk)
+			if e != nil || root != br.roots[k] {
+				fail("a fork branch imports differently on a fresh node than on the node that saw rejected blocks and other forks",
+					map[string]any{"fork_at_block": br.at, "branch_block": k, "fresh_node_error": fmt.Sprint(e), "same_root": root == br.roots[k]})
+				return
+			}
+			h.Inc("fork_blocks_replayed_on_a_fresh_node")
+		}
 	}
 	h.Distinct(fmt.Sprint(trace), ci)
 	if ci < 2 {
